@@ -1089,6 +1089,13 @@ class Interp:
             if isinstance(a, Ptr) and a.meta is not None:
                 return bv.const(a.meta, 64)
             return Agg(())
+        if name == "raw_eq":
+            t = ga[0]["ty"]
+            x = self.to_bits(self.deref_read(args[0], t), t)
+            y = self.to_bits(self.deref_read(args[1], t), t)
+            return (bv.cmp_bit("eq", x, y),)
+        if name == "compare_bytes":
+            raise Undecided("compare_bytes")
         if name == "three_way_compare":
             return self.binop("cmp", args[0], args[1], ga[0]["ty"])
         raise Undecided("intrinsic %s" % name)
